@@ -18,12 +18,12 @@ from mc.lexer import LexError, lex
 from pypika_tortoise import Database, Schema, AliasedQuery, Field, Query, Table
 from pypika_tortoise import functions as FN
 from pypika_tortoise.queries import Column
-from pypika_tortoise.terms import Index
+from pypika_tortoise.terms import Index, SystemTimeValue
 
 PROPERTY = "C07"
 
-ALPHA = ["a", "A", '"', "`", "'", ".", " ", "[", "]", "é", "-"]
-EXTRA = ["select", "from", "order", "MiXed", "a b c", "x--y", "/*c*/", "%s", "$1", "?"]
+ALPHA = ["a", "A", '"', "`", "'", ".", " ", "[", "]", "é", "-", "{", "}"]
+EXTRA = ["select", "from", "order", "MiXed", "a b c", "x--y", "/*c*/", "%s", "$1", "?", "{type}", "{0}", "a{{b}}", "{join}", "%(x)s", "%d"]
 BENIGN = "zq1"
 QUOTE = {"generic": '"', "sqlite": '"', "postgresql": '"', "mssql": '"', "oracle": '"', "mysql": "`"}
 
@@ -70,6 +70,13 @@ SITES = {
     "column_on_conflict": lambda Q, N: Q.into(T()).insert(1).on_conflict(N).do_update(N, 2),
     "column_using": lambda Q, N: Q.from_(T()).join(U()).using(N).select(T().a),
     "table_alias": lambda Q, N: Q.from_(Table("t", alias=N)).select(Table("t", alias=N).a).where(Table("t", alias=N).b == 1),
+    "table_alias_temporal": lambda Q, N: (lambda ta: Q.from_(ta).select(ta.a).where(ta.b == 1))(Table("t", alias=N).for_(SystemTimeValue().as_of("2020-01-01"))),
+    "table_alias_temporal_join": lambda Q, N: (lambda ta: Q.from_(T()).join(ta).on(T().id == ta.id).select(ta.a))(
+        Table("u", alias=N).for_portion(SystemTimeValue().from_to("2020-01-01", "2020-02-01"))),
+    "table_from_str": lambda Q, N: Q.from_(N).select("a"),
+    "table_into_str": lambda Q, N: Q.into(N).insert(1),
+    "table_update_str": lambda Q, N: Q.update(N).set("a", 1),
+    "table_join_str": lambda Q, N: Q.from_(T()).join(Table(N)).on(T().id == Table(N).id).select(T().a, Table(N).b).where(Table(N).c == 1),
     "table_alias_star": lambda Q, N: (lambda ta: Q.from_(ta).join(U()).on(ta.id == U().id).select(ta.star, U().a))(Table("t", alias=N)),
     "table_alias_star_single": lambda Q, N: (lambda ta: Q.from_(ta).select(ta.star))(Table("t", alias=N)),
     "subquery_alias_star": lambda Q, N: (lambda s: Q.from_(s).select(s.star))(Q.from_(T()).select("a").as_(N)),
@@ -117,7 +124,8 @@ REQUIRED_IDS = {"schema_nested3_mid": ["top9", "s9", "t"], "schema_nested3_first
 EXPECT_ABSENT = {"alias_of_sibling_only"}
 EXPECT_COUNTS = {"ddl_constraint_case": (3, 1), "ddl_constraint_case_late": (1, 2)}
 # exact number of times the name must be emitted (absolute: the benign rendering is made by the same library)
-NAME_COUNT = {"table_alias_star": 3, "table_alias_star_single": 2, "subquery_alias_star": 2, "ddl_period_end": 2, "ddl_period_end_col": 2,
+NAME_COUNT = {"table_alias_temporal": 3, "table_alias_temporal_join": 3, "table_from_str": 1, "table_into_str": 1, "table_update_str": 1, "table_join_str": 4,
+              "table_alias_star": 3, "table_alias_star_single": 2, "subquery_alias_star": 2, "ddl_period_end": 2, "ddl_period_end_col": 2,
               "ddl_period_cols": 2, "ddl_period": 1, "table_alias": 3, "subquery_alias": 2, "ddl_column": 3}
 REQUIRED_MORE = {"ddl_period_end": ["a9", "p9"], "ddl_period_end_col": ["a9", "p9"], "ddl_period_cols": ["b", "p"]}
 
